@@ -87,8 +87,14 @@ impl<'a> PrettyPrinter<'a> {
             && import_items_nodes.iter().all(|node| !is_comment_node(node))
             && check_import_name_duplication(&import_items_nodes)
         {
-            // Sort import items by their text representation.
-            import_items_nodes.sort_by_key(|&node| node.clone().into_text());
+            // Sort import items by their text representation. Blanks are ignored, so that the order does not
+            // depend on spacing which formatting normalizes (`a . b`, `x as  y`).
+            import_items_nodes.sort_by_key(|&node| {
+                let text = node.clone().into_text();
+                text.chars()
+                    .filter(|c| !c.is_whitespace())
+                    .collect::<String>()
+            });
         }
         // Note that `ImportItem` does not implement `AstNode`.
         ListStylist::new(self)
